@@ -57,6 +57,9 @@ type Run struct {
 	Trusted     []string
 	Assumptions []string
 
+	// Quiet: a sub-run (required property, control variant): nothing is printed or written for it
+	Quiet bool
+
 	// KeyPrefix is prepended to the key of every obligation recorded while it is set (used by the thorough
 	// tier to repeat the rules under other build targets).
 	KeyPrefix string
@@ -125,6 +128,25 @@ func (r *Run) Failed() (bool, string) {
 	for _, f := range r.floors {
 		if f.got < f.min {
 			return true, "floor " + f.rule
+		}
+	}
+	return false, ""
+}
+
+// FirstFailure returns the first violated or undecided obligation (or unmet floor) with its text.
+func (r *Run) FirstFailure() (bool, string) {
+	for _, o := range r.obls {
+		if o.Status == Violated || o.Status == Undecided {
+			d := o.Detail
+			if len(d) > 300 {
+				d = d[:300] + "..."
+			}
+			return true, fmt.Sprintf("%s %s @%s: %s", o.Rule, o.Key, o.Pos, d)
+		}
+	}
+	for _, f := range r.floors {
+		if f.got < f.min {
+			return true, fmt.Sprintf("rule %s matched %d instance(s), fewer than %d", f.rule, f.got, f.min)
 		}
 	}
 	return false, ""
